@@ -105,8 +105,6 @@ UNWITNESSED = {
     'Outputs/(label from a variable)/value=ProjectNPV': 'label built by _field_label into a local variable; triage cannot locate the line by label',
     'OutputsAddOns/Adjusted Project LCOH (after incentives, grants, AddOns,etc)/value=LCOH': 'value is 0.00 in the runnable add-on example: conversion invisible',
     'Outputs/Initial geofluid availability/value=Availability': 'no alternative unit in the catalogue for MW/(kg/s)',
-    'Outputs/Average Cooling Production/value=cooling_produced': 'second line with the same label; triage compares the first',
-    'Outputs/Annual District Heating Demand/value=annual_heating_demand': 'second line with the same label; triage compares the first',
     'Outputs/Maximum Daily District Heating Demand/value=daily_heating_demand': 'no alternative unit in the catalogue for MWh/day',
     'Outputs/Average Daily District Heating Demand/value=daily_heating_demand': 'no alternative unit in the catalogue for MWh/day',
     'Outputs/Minimum Daily District Heating Demand/value=daily_heating_demand': 'no alternative unit in the catalogue for MWh/day',
@@ -368,7 +366,7 @@ def _section_of(t: Template) -> str:
     return best or f'line{t.call.lineno}'
 
 
-def check_adjacent_holes(ctx, templates: List[Template]) -> None:
+def check_adjacent_holes(ctx, templates: List[Template], rule: str = 'W4') -> None:
     """Two adjacent cells of a table row must be separated by literal whitespace (a wide value cannot merge columns)."""
     n = 0
     for t in templates:
@@ -381,10 +379,10 @@ def check_adjacent_holes(ctx, templates: List[Template]) -> None:
             if s.kind == 'value' and prev is not None and prev.kind == 'value':
                 merged.append((prev.text[:30], s.text[:30]))
             prev = s
-        ctx.check(not merged, 'W4', f'{t.fn.cls.name}/{_section_of(t)}/cells-separated@{len(t.values())}', t.where,
+        ctx.check(not merged, rule, f'{t.fn.cls.name}/{_section_of(t)}/cells-separated@{len(t.values())}', t.where,
                   f'cells {merged[:2]} are adjacent with no literal blank between them: a value wider than its field merges with its neighbour '
                   f'and every later column of that row shifts', fact='literal whitespace between all cells')
-    ctx.floor('W4', n, 10, 'table row templates')
+    ctx.floor(rule, n, 10, 'table row templates')
 
 
 ANTONYMS = [('injection', 'inj', 'production', 'prod')]
